@@ -63,6 +63,9 @@ func (w *World) checkNode(n *Node, st *State, phase string) {
 	if n.isPartial() && w.on("partial") && !n.tainted && !n.cfg.FullRoots {
 		w.checkPartialContent(n, st, phase)
 	}
+	if n.cfg.Kind == "stump" && !n.tainted {
+		w.stumpCoincident(n, st, seed)
+	}
 }
 
 // observe compares everything observable through the public API with the model.
@@ -103,6 +106,14 @@ func (w *World) observe(n *Node, st *State, seed uint64) (out []obs) {
 			ms = short(L.Roots[d])
 		}
 		add("roots", "roots", "roots differ from the model (%d roots, model %d; first difference at index %d: got %s, model %s; N=%d)", len(roots), len(L.Roots), d, gs, ms, st.N)
+		if w.opt.Property == "C10" && w.on("lookup") && !n.isStumpy() {
+			// C10 quantifies over every reachable state, and a forest whose roots are
+			// wrong is one: the look-up of a leaf by hash is still asked (the leaf count
+			// agrees, so every model position is meaningful) and a lie is reported under
+			// C10 next to the root mismatch, which C01 owns.
+			lp, _ := w.observeLeafPos(n, st)
+			out = append(out, lp...)
+		}
 		return
 	}
 	if n.isStumpy() {
@@ -157,16 +168,12 @@ func (n *Node) tracks(h H) bool {
 }
 
 // observeLookups: C10.
-func (w *World) observeLookups(n *Node, st *State, seed uint64) (out []obs) {
+// observeLeafPos: hash -> position for every leaf the model has ever seen.
+func (w *World) observeLeafPos(n *Node, st *State) (out []obs, tracked []H) {
 	L := st.Layout()
 	add := func(class, format string, a ...interface{}) {
 		out = append(out, obs{"lookup", class, fmt.Sprintf(format, a...)})
 	}
-	w.count("lookup")
-	r := SubRng(seed, "lookup")
-	full := !n.isPartial()
-	// hash -> position
-	var tracked []H
 	for i, h := range st.Leaves {
 		var pos uint64
 		var ok bool
@@ -192,6 +199,22 @@ func (w *World) observeLookups(n *Node, st *State, seed uint64) (out []obs) {
 			add("leafpos-dead", "deleted leaf %s (slot %d) reported at position %d", short(h), i, pos)
 			return
 		}
+	}
+	return
+}
+
+func (w *World) observeLookups(n *Node, st *State, seed uint64) (out []obs) {
+	L := st.Layout()
+	add := func(class, format string, a ...interface{}) {
+		out = append(out, obs{"lookup", class, fmt.Sprintf(format, a...)})
+	}
+	w.count("lookup")
+	r := SubRng(seed, "lookup")
+	full := !n.isPartial()
+	// hash -> position
+	out, tracked := w.observeLeafPos(n, st)
+	if len(out) > 0 {
+		return
 	}
 	probe := func(h H, what string) bool {
 		var pos uint64
